@@ -118,10 +118,21 @@ namespace cdsv {
         }
 
     public:
-        SeqDriver( SeqPlan const& p )
-            : m_plan( p ), m_ps( prop( p.prop )), m_bar( p.threads + 1 ), m_log( p.threads + 1 ), m_uidseq( p.threads + 1, 0 )
+        // C20 mode (--prop C20): the same adapters and models, one thread, sequences of 1-120 calls: every result must be the model's
+        static SeqPlan adjust( SeqPlan p )
         {
-            m_seed = mix64( args().seed ) ^ mix64( std::hash<std::string>()( p.variant ));
+            if ( args().prop == "C20" ) {
+                p.prop = "C20"; p.threads = 1; p.min_ops = 1; p.max_ops = 120; p.phased = false; p.single_consumer = false;
+                p.rounds = p.rounds > 2000 ? 2000 : p.rounds;
+                p.variant += "/sequential";
+                for ( int i = 0; i < 8; ++i ) if ( p.weight_consumer[i] > p.weight[i] ) p.weight[i] = p.weight_consumer[i];
+            }
+            return p;
+        }
+        SeqDriver( SeqPlan const& p0 )
+            : m_plan( adjust( p0 )), m_ps( prop( m_plan.prop )), m_bar( m_plan.threads + 1 ), m_log( m_plan.threads + 1 ), m_uidseq( m_plan.threads + 1, 0 )
+        {
+            m_seed = mix64( args().seed ) ^ mix64( std::hash<std::string>()( m_plan.variant ));
         }
 
         void run()
@@ -179,7 +190,7 @@ namespace cdsv {
                 m_ps.operations.fetch_add( h.size(), std::memory_order_relaxed );
                 uint64_t ov = count_overlaps( h );
                 m_ps.overlap_pairs.fetch_add( ov, std::memory_order_relaxed );
-                if ( ov ) {
+                if ( ov || ( m_plan.threads == 1 && h.size() >= 3 )) {    // sequential mode: non-trivial = at least a mutation, an observation and the drain
                     m_ps.nontrivial.fetch_add( 1, std::memory_order_relaxed );
                     IdNorm nm( 1000 );
                     m_ps.add_fp( fingerprint( h, nm, std::hash<std::string>()( m_plan.variant )));
